@@ -69,13 +69,30 @@ def function_def(act, td):
     return "%s { %s; memset(&r, 0, sizeof(r)); return r; }" % (head, mg.decl(act["res"], "r"))
 
 
+def c_int(v):
+    """a C expression with exactly the value of the decimal text v (64-bit boundaries included)"""
+    n = int(v)
+    if n == -2**63:
+        return "(-9223372036854775807LL - 1)"
+    if n >= 2**63:
+        return "%dULL" % n
+    if not -2**31 <= n < 2**31:
+        return "%dLL" % n
+    return str(n)
+
+
 def render_c(act, td):
-    """one action as C source (definitions for functions and variables)"""
+    """one action as C source (definitions for functions and variables; integer constants are
+    macros with the declared value, whatever the form of the cdef declaration)"""
     a = act["a"]
     if a == "DeclFunc":
         return function_def(act, td)
     if a == "DeclGlobal":
         return "%s;" % mg.decl(act["t"], act["n"])
+    if a == "DeclConst":
+        return "#define %s %s" % (act["n"], c_int(act["val"]))
+    if a == "DeclEnum":
+        return "enum %s { %s };" % (act["tag"], ", ".join("%s = %s" % (n, c_int(v)) for n, v in zip(act["names"], act["vals"])))
     return mg.render(act).strip()
 
 
